@@ -99,7 +99,10 @@ def gen_history(rng, n, classes=None, pool_size=6, same_plain9=True, nsalts=2, s
         pool.append((L.gen_secret(rng, c), c))
     if same_plain9 and (classes is None or "jun9" in classes):
         from .jun_checks import ref_encrypt
-        p = "".join(rng.choice("ghijkmnopqrstuvwxyz") for _ in range(rng.randint(3, 9)))
+        while True:
+            p = "".join(rng.choice("ghijkmnopqrstuvwxyz") for _ in range(rng.randint(3, 9)))
+            if not L.is_reserved(p):          # (a reserved word as secret value is left as it is - C10; not what is generated here)
+                break
         for k in range(nsalts):                                             # $9$ encodings of one plaintext, salts cycled
             pool.append((ref_encrypt(p, ALPHA[(salt0 + k) % 65]), "jun9"))
         pool.append((p, "text"))                                            # ... and the clear text itself
@@ -123,7 +126,7 @@ def gen_history(rng, n, classes=None, pool_size=6, same_plain9=True, nsalts=2, s
             pq = "s3cr" + "".join(rng.choice("ghjkmnpq") for _ in range(3))
             for extra_ in ("", "}", ";", ",", "]", '"', " "):                   # plaintexts that differ only by enclosing characters
                 pool.append((ref_encrypt(pq + extra_, rng.choice(ALPHA)), "jun9"))
-            full = ref_encrypt("key" + rng.choice("qrst") + "z" * rng.randint(0, 3), rng.choice(ALPHA))
+            full = ref_encrypt("kex" + rng.choice("qjvz") + "z" * rng.randint(0, 3), rng.choice(ALPHA))
             torn = full[:-1]                                                   # a torn `$9$` string is an (undecodable) secret of its own ...
             pool.append((torn, "jun9"))
             try:
@@ -212,10 +215,14 @@ def c07_scope(res, pid, rng, tier):
         ren = {}
         for t, w, s, c in hist:
             if s not in ren:
-                if c == "md5":
-                    ren[s] = L.gen_secret(rng, c, md5_salt_len=len(s.split("$")[2]))
-                else:
-                    ren[s] = L.gen_secret(rng, c)
+                while True:      # (distinct secrets get distinct new values: a one-character `$9$` plaintext can repeat by chance)
+                    if c == "md5":
+                        v_ = L.gen_secret(rng, c, md5_salt_len=len(s.split("$")[2]))
+                    else:
+                        v_ = L.gen_secret(rng, c)
+                    if v_ not in ren.values() and v_ not in ren:
+                        break
+                ren[s] = v_
         hist2 = [(t, w, ren[s], c) for t, w, s, c in hist]
         extra1, extra2 = [], []
         for tm in L.SCRUB_FORMS + L.AWS_FORMS:
